@@ -422,8 +422,17 @@ class E9Project(Engine):
             if prev is not None:
                 # the project directory is reused: keep parts of the previous call, and make the new source a
                 # near copy of the old one (same length, a prefix, an extension) as a rebuild after an edit would
-                how = rng.choice(["same_len", "same_len", "prefix", "extend", "fresh", "identical"])
+                how = rng.choice(["same_len", "same_len", "prefix", "extend", "fresh", "identical", "respell", "respell"])
                 old = prev["source"]
+                if how == "respell":
+                    # the same text under another spelling that a text-mode comparison, a strip or a case fold would
+                    # call equal: other line endings, trailing blanks, tabs for spaces, another case
+                    variants = [old.replace("\r\n", "\n"), old.replace("\r\n", "\n").replace("\n", "\r\n"), old.replace("\r\n", "\n").replace("\n", "\r"),
+                                old.rstrip(), old.strip(), old + "\n", old.replace("\t", "    "), old.replace(" ", "\t"), old.upper(), old.lower(),
+                                old.replace("\n", " \n"), old.replace("\n\n", "\n")]
+                    variants = [v for v in variants if v != old]
+                    if variants:
+                        source = rng.choice(variants)
                 if how == "same_len" and old:
                     idx = [i for i, c in enumerate(old) if ord(c) < 128 and c not in "\r\n"]
                     if idx:
@@ -477,6 +486,7 @@ class E9Project(Engine):
                     return last
             last.probes["writes"] = len(steps)
             last.faults = {"project_dir_reused": len(steps) - 1, "stale_project": int(bool(stale)),
+                           "respelt_rewrite": sum(1 for a, b in zip(steps, steps[1:]) if a["source"] != b["source"] and "".join(a["source"].split()).lower() == "".join(b["source"].split()).lower()),
                            "same_length_rewrite": sum(1 for a, b in zip(steps, steps[1:]) if a["source"] != b["source"] and len(a["source"].encode()) == len(b["source"].encode()))}
             return last
         finally:
